@@ -4,6 +4,8 @@ import J5V.Codec.FaultDocProofs
 import J5V.Codec.SpellProofs
 import J5V.Codec.QueryProofs
 import J5V.Codec.ExactProofs
+import J5V.Codec.StoredProofs
+import J5V.Codec.StoredFlat
 import J5V.Generated.CodecFacts
 /-!
 # C03 — decoding is exact or rejected
@@ -270,11 +272,14 @@ theorem C03_scalar_alternates (O : Oracle) (raw : Bytes) :
   · intro s
     exact ⟨by simp, _, rfl, rfl⟩
 
-/-! ## exactness, member by member (`_partial`: the composition over a whole document is missing) -/
+/-! ## exactness: member by member, and composed over the whole document (`C03_exact_stored_partial`) -/
 
 /-- **Full statement** of the first sentence's exactness half: whenever decoding succeeds, the
 document spells the resulting message (every non-null member is stored with the value it denotes
-and nothing else is stored). Not proved as a whole; proved per member below. -/
+and nothing else is stored). Proved for `Env.apart` in the relational form `StoredRoot`
+(`C03_exact_stored_partial`, whole document, every depth, both halves at the granularity of
+properties / elements / keys); `SpellsRoot` itself is narrower than what the decoder accepts
+(e.g. repeated `"!type"`), so the full statement is stated with `StoredRoot` there. -/
 def C03_exact_full : Prop :=
   ∀ (c : Cfg), c.env.flat = true → ∀ (root : String) (t : PTree) (m : Fields),
     decRootTree c root t = .ok m → SpellsRoot c root m t
@@ -328,6 +333,61 @@ theorem C03_set_frame (props : List PropDef) (p : PropDef) (v : Option PVal) (kl
     getPath (updPath props p v m) x = getPath m x :=
   getPath_updPath_frame props p v kl hkl m x hne hx h1 h2
     (siblingsUnset_of_not_busy props p kl m hkl hgb)
+
+/-- **whole-document exactness (`_partial` in the class of schemas, and one direction)**: whenever
+`Codec.JSONToProto` accepts a document, the resulting message holds **everything the document
+says, exactly** (`StoredRoot`, `Codec/Doc.lean`, a relation on the document that never mentions
+the decoder): every non-null member — at every depth: members of nested objects, elements of
+arrays (by position), values of maps (by key), the arm of a oneof (wrapper oneofs at any position,
+`"!type"` before / after / absent / repeated) — is found at the proto path of its property with a
+value `vv` such that
+* a scalar token denotes exactly `vv` (`scalarSpells`: `scalarReflectFromGo` maps the token to it —
+  never a coerced, truncated or defaulted value),
+* an enum name is an option (short or prefixed) with exactly that number,
+* an object / oneof / array / map is stored as a message / list / map that in turn holds
+  everything its subtree says,
+or — for the zero value of an implicit-presence field and for `[]` / `{}` of an array / map, which
+protobuf does not store — the path is unset (`storedAt`). Later members never overwrite earlier
+ones (`member_persists`, `oneof_persists`, `map_persists`).
+
+**And nothing else is stored**: in every object of the document a property is set only if the
+object has a non-null member for it (`OnlyM`; a oneof that has an arm member: `OnlyO`), a stored
+list has exactly one value per element, a stored map has exactly the document's keys, in order
+(`StoredV`'s map clause). (Invariant: properties not yet met are unset, `Fresh`; nested messages
+are decoded into fresh messages.)
+
+An **exposed oneof** (empty proto path) is a oneof object over the *same* message: its member is
+described by `StoredX` (the arm is stored in the enclosing message; `OnlyM` counts the members of
+the exposed oneof as leaves of the property).
+
+Hypothesis `Env.apart` (decidable: `Env.apartB`): in every object root the leaves of different
+properties (`leavesOf`: the property's own proto path, or — exposed oneof — the one-element paths of
+the oneof's members) are unrelated (none a prefix of another), in every oneof root all paths are
+non-empty and unrelated — flattened objects (paths of any length), exposed oneofs, anonymous proto
+oneofs, wrapper oneofs, arrays, maps, enums, `Any` fields are all allowed. This is what `Env.flat`
+asks of the paths (`prefixFree` of the leaf entries). Every decoding mode.
+
+Missing for the full statement: the content of an `Any` (`StoredV` does not look into it); an
+exposed oneof inlined from a flattened object (its path is a prefix of its siblings'); for a oneof body made of `"!type"` members only, which arm `oneof.NewValue` selected;
+proto fields that belong to no property path (the message is built from the empty one by
+`Message.Set` at property paths only, but that is not part of `StoredRoot`). -/
+theorem C03_exact_stored_partial (c : Cfg) (hE : c.env.apart) (root : String) (t : PTree)
+    (m : Fields) (h : decRootTree c root t = .ok m) : StoredRoot c root m t :=
+  stored_root c hE root t m h
+
+/-- **… for every flat environment** (`Env.flat`: the class C01's round trip is proved for —
+flattened objects, exposed oneofs, anonymous proto oneofs, wrapper oneofs, enums, arrays / maps of
+scalars / enums / objects / oneofs, j5 `Any` properties): `Env.flat → Env.apart`
+(`apart_of_flat`: the leaf paths of an object root are duplicate-free and prefix-free, the members
+of a oneof root have distinct one-element paths). -/
+theorem C03_exact_stored_flat_partial (c : Cfg) (hs : c.env.flat = true) (root : String) (t : PTree)
+    (m : Fields) (h : decRootTree c root t = .ok m) : StoredRoot c root m t :=
+  stored_root c (apart_of_flat c.env hs) root t m h
+
+/-- the same on bytes: what `Codec.JSONToProto` accepts, it stored exactly as the reader saw it -/
+theorem C03_exact_stored_bytes_partial (c : Cfg) (hE : c.env.apart) (root : String) (bs : Bytes)
+    (m : Fields) (h : decodeBytes c root bs = .ok m) : StoredRoot c root m (readDoc bs) :=
+  stored_root c hE root (readDoc bs) m h
 
 /-! ## scalar values supplied as URL query parameters -/
 
@@ -494,6 +554,42 @@ example : decElems faultCfg (.scalar .int32) (.cons (.num (ascii "1")) (.nil .cl
     .ok ([.int 1], .closed) := by rfl
 example : mProps[0].path.getLast? = some 1 ∧ groupBusy mProps mProps[0] [] = false ∧
     ¬ mProps[0].path <+: [5] ∧ ¬ [5] <+: mProps[0].path := by decide
+
+/-- hypothesis of `C03_exact_stored_partial`: the example environment (scalars, a wrapper oneof
+with a proto-oneof group, an array, a recursive object) addresses unrelated leaves … -/
+example : faultEnv.apart := apart_of_apartB faultEnv (by decide)
+/-- … and so does an environment with a flattened object (paths `[6,1]`, `[6,2,1]`), a map and an
+`Any` … -/
+example : Env.apart { defs := [("t.F", .object [
+    { jsonName := ascii "fa", path := [6, 1], pres := .imp, field := .scalar .string },
+    { jsonName := ascii "fb", path := [6, 2, 1], pres := .list, field := .array (.object "t.F") },
+    { jsonName := ascii "tags", path := [7], pres := .map, field := .map (.scalar .string) },
+    { jsonName := ascii "any", path := [8], pres := .msg, field := .any false }])] } :=
+  apart_of_apartB _ (by decide)
+/-- … and one with an **exposed oneof** (`kind`: members in fields 20 / 21 of the object itself) -/
+example : Env.apart { defs := [
+    ("t.K", .oneof [
+      { jsonName := ascii "num", path := [20], pres := .opt, field := .scalar .int32, group := some 0 },
+      { jsonName := ascii "sub", path := [21], pres := .msg, field := .object "t.X", group := some 0 }]),
+    ("t.X", .object [
+      { jsonName := ascii "name", path := [1], pres := .imp, field := .scalar .string },
+      { jsonName := ascii "kind", path := [], pres := .none, field := .oneof "t.K" },
+      { jsonName := ascii "fa", path := [40, 1], pres := .imp, field := .scalar .string }])] } :=
+  apart_of_apartB _ (by decide)
+/-- overlapping leaves are not: an exposed member in the field of another property -/
+example : Env.apartB { defs := [
+    ("t.K", .oneof [{ jsonName := ascii "num", path := [1], pres := .opt, field := .scalar .int32 }]),
+    ("t.X", .object [
+      { jsonName := ascii "name", path := [1], pres := .imp, field := .scalar .string },
+      { jsonName := ascii "kind", path := [], pres := .none, field := .oneof "t.K" }])] } = false := by
+  decide
+/-- a document the decoder accepts (so the conclusion is about something): reordered members, a
+quoted 32-bit integer, a oneof without `"!type"`, an explicit null -/
+example : decRootTree faultCfg "t.M"
+    (.obj (.cons (ascii "w") [] (.obj (.cons (ascii "b") [] (.str (ascii "7") []) (.nil .closed)))
+      (.cons (ascii "sub") [] .null
+        (.cons (ascii "name") [] (.str (ascii "x") []) (.nil .closed))))) =
+    .ok [(1, .str (ascii "x")), (3, .msg [(2, .int 7)])] := by rfl
 
 /-- `PathsApart` holds for the example object -/
 example : PathsApart mProps := by
